@@ -221,8 +221,9 @@ func (data *Data) DeleteDataNode(id uint64) error {
 
 // newShardOwner sets the owner of the provided shard to the data node
 // that currently owns the fewest number of shards. If multiple nodes
-// own the same (fewest) number of shards, then one of those nodes
-// becomes the new shard owner.
+// own the same (fewest) number of shards, then the one with the smallest
+// id becomes the new shard owner: every replica applies this command and
+// must pick the same node, whatever order its map is iterated in.
 func newShardOwner(s ShardInfo, ownerFreqs map[int]int) (uint64, error) {
 	var (
 		minId   = -1
@@ -230,7 +231,7 @@ func newShardOwner(s ShardInfo, ownerFreqs map[int]int) (uint64, error) {
 	)
 
 	for id, freq := range ownerFreqs {
-		if minId == -1 || freq < minFreq {
+		if minId == -1 || freq < minFreq || (freq == minFreq && id < minId) {
 			minId, minFreq = int(id), freq
 		}
 	}
